@@ -168,8 +168,12 @@ theorem recip_total (n : Nat) (Y : PB) (hY : WF n Y) (hs : SameSign Y) :
     · exact Or.inl (h.1 a ha)
     · exact Or.inr (h.2 b hb)
   refine ⟨_, ?_, hw, ?_⟩
-  · unfold recip
-    simp only [nzl, nzr, Bool.or_self, Bool.false_eq_true, if_false]
+  · have nst : straddlesZero Y = false := by
+      rcases hs with h | h
+      · exact straddlesZero_false_pos Y h.1 h.2
+      · exact straddlesZero_false_neg Y h.1 h.2
+    unfold recip
+    simp only [nst, nzl, nzr, Bool.or_self, Bool.false_eq_true, if_false]
     exact mk_wf n false _ _ hw
   · have key : ∀ (L : List Rat), ((∀ v ∈ L, 0 < v) → ∀ w ∈ L.reverse.map (1 / ·), 0 < w) ∧
         ((∀ v ∈ L, v < 0) → ∀ w ∈ L.reverse.map (1 / ·), w < 0) := by
